@@ -46,6 +46,11 @@ BUILT = {
             'tolerances at 0, random and exactly on cumulative weights, plus two-site tensor splits with all three distributions; judged against numpy '
             'dense SVD: isometry, masks, error identity, tolerance bound, ordering, maximality, input immutability.',
             'float64, 1e-12 slack around boundary tolerances; numpy.linalg.svd trusted', '4 (C12)'),
+    'C13': ('Hypothesis random search over shaped entanglement spectra and threshold tolerances; dense-vector and dense-Schmidt oracle',
+            'Exploration: non-zero MPS with constructed charges and bond weights (fast decay, flat, staircase, product) are compressed with tolerances 0, log-uniform and exactly on a cumulative '
+            'Schmidt weight, in both modes; returned norm and scale bounds, normalisation, canonical form, bond monotonicity, the exact error identity (squared), the sqrt(L tol) bound and the kept '
+            'count at the first truncated bond are judged against dense Schmidt values; from_vector error bound likewise.',
+            'dense reach d^L <= 4096; exactly-zero states excluded; 1e-10 window around threshold tolerances', '4 (C13)'),
     'C14': ('Hypothesis random search over matrices with Krylov dimension known by construction; algebraic-relation oracle',
             'Exploration: spectra, multiplicities, start-vector supports and iteration counts below/at/above the Krylov dimension are generated; '
             'orthonormality, projected-map identity, Arnoldi relation, sign and size consistency are judged for the leading part.',
